@@ -58,17 +58,17 @@ def _scalar_ok(pt: str, v, enum_cls) -> bool:
     if pt == "bool":
         return type(v) is bool
     if pt in ("float", "double"):
-        return type(v) is float
+        return isinstance(v, float)
     if pt == "string":
-        return type(v) is str
+        return isinstance(v, str)
     if pt == "bytes":
-        return type(v) is bytes
-    return type(v) is int
+        return isinstance(v, bytes)
+    return isinstance(v, int) and not isinstance(v, bool)       # a subclass of int is an int; a bool is not
 
 
 def check_types(m, cls, path: str = "", depth: int = 0) -> Optional[str]:
     """None if every field of m (recursively) holds a value of its declared Python type."""
-    if type(m) is not cls:
+    if not isinstance(m, cls):
         return f"{path or '<root>'}: {type(m).__name__} instead of {cls.__name__}"
     if depth > 40:
         return None
@@ -82,7 +82,7 @@ def check_types(m, cls, path: str = "", depth: int = 0) -> Optional[str]:
             return f"{path}{fi.name}: AttributeError on a non-oneof field"
         p = f"{path}{fi.name}"
         if fi.is_map:
-            if type(v) is not dict:
+            if not isinstance(v, dict):
                 return f"{p}: {type(v).__name__} instead of dict"
             kt, vt = fi.map_types
             for k, x in v.items():
@@ -96,7 +96,7 @@ def check_types(m, cls, path: str = "", depth: int = 0) -> Optional[str]:
                     return f"{p} value {x!r}: {type(x).__name__} for {vt}"
             continue
         items = v if fi.repeated else [v]
-        if fi.repeated and type(v) is not list:
+        if fi.repeated and not isinstance(v, list):
             return f"{p}: {type(v).__name__} instead of list"
         for x in items:
             if x is None:
@@ -108,10 +108,10 @@ def check_types(m, cls, path: str = "", depth: int = 0) -> Optional[str]:
                     if not _scalar_ok(fi.wraps, x, None):
                         return f"{p}: {type(x).__name__} ({x!r}) in a {fi.wraps} wrapper field"
                 elif fi.py_cls is datetime:
-                    if type(x) is not datetime:
+                    if not isinstance(x, datetime):
                         return f"{p}: {type(x).__name__} instead of datetime"
                 elif fi.py_cls is timedelta:
-                    if type(x) is not timedelta:
+                    if not isinstance(x, timedelta):
                         return f"{p}: {type(x).__name__} instead of timedelta"
                 else:
                     why = check_types(x, fi.py_cls, p + ".", depth + 1)
@@ -180,13 +180,15 @@ def _packed_problem(payload: bytes, proto_type: str) -> Optional[str]:
     return None
 
 
-def _msg_problem(payload: bytes, cls, depth: int = 0) -> Optional[str]:
+def _msg_problem(payload: bytes, cls, depth: int = 0):
     """A structural problem (cut field, wire type 6/7, field number 0) anywhere inside the payload of a
-    field the schema declares as a message / map entry / packed list - judged by the independent parser."""
+    field the schema declares as a message / map entry / packed list - judged by the independent parser.
+    Returns None, "?" (malformed in a way that is not enforced) or (reason, innermost occurrence): the bytes
+    of the innermost well-delimited field whose own payload is the malformed one (None: this payload)."""
     try:
         fields = wire.parse_fields(payload)
     except wire.WireError as e:
-        return str(e) if str(e).startswith(ENFORCED) else "?"
+        return (str(e), None) if str(e).startswith(ENFORCED) else "?"
     if cls is None or depth > 8:
         return None
     ci = class_info(cls)
@@ -195,36 +197,43 @@ def _msg_problem(payload: bytes, cls, depth: int = 0) -> Optional[str]:
         if fi is None or f.wt != wire.LEN or wire.LEN not in declared_wire_types(fi):
             continue
         r = _field_problem(f.value, fi, depth + 1)
-        if r:
+        if r == "?":
             return r
+        if r:
+            return (r[0], r[1] if r[1] is not None else payload[f.start:f.end])
     return None
 
 
-def _field_problem(payload: bytes, fi, depth: int) -> Optional[str]:
+def _field_problem(payload: bytes, fi, depth: int):
     if fi.is_map:
         try:
             entry = wire.parse_fields(payload)
         except wire.WireError as e:
-            return f"map entry: {e}" if str(e).startswith(ENFORCED) else "?"
+            return (f"map entry: {e}", None) if str(e).startswith(ENFORCED) else "?"
         kt, vt = fi.map_types
         if vt == "message":
             for f in entry:
                 if f.num == 2 and f.wt == wire.LEN:
                     r = _msg_problem(f.value, fi.map_value_cls, depth + 1)
-                    if r:
+                    if r == "?":
                         return r
+                    if r:
+                        return (r[0], r[1] if r[1] is not None else payload[f.start:f.end])
         return None
     if fi.proto_type == "message":
         sub = fi.py_cls if (isinstance(fi.py_cls, type) and issubclass(fi.py_cls, betterproto.Message) and not fi.wraps) else None
         return _msg_problem(payload, sub, depth)
     if fi.repeated and fi.proto_type not in ("string", "bytes"):
-        return _packed_problem(payload, fi.proto_type)
+        why = _packed_problem(payload, fi.proto_type)
+        return (why, None) if why else None
     return None
 
 
 def deep_problem(buf: bytes, cls) -> Optional[Tuple[str, bytes]]:
-    """(reason, bytes of the top-level occurrence) for the first well-delimited top-level field whose
-    payload is itself malformed; None if there is none or the top level is already malformed."""
+    """(reason, bytes of the INNERMOST well-delimited occurrence whose own payload is malformed) for the first
+    top-level field with such a payload; None if there is none or the top level is already malformed.  The
+    innermost occurrence is what a decoder that does not reject must keep verbatim: it cannot be parsed, so it
+    cannot have been re-ordered or normalised either."""
     try:
         top = wire.parse_fields(buf)
     except wire.WireError:
@@ -235,11 +244,67 @@ def deep_problem(buf: bytes, cls) -> Optional[Tuple[str, bytes]]:
         if fi is None or f.wt != wire.LEN or wire.LEN not in declared_wire_types(fi):
             continue
         r = _field_problem(f.value, fi, 1)
-        if r and r != "?":
-            return r, buf[f.start:f.end]
         if r == "?":
             return None
+        if r:
+            return r[0], (r[1] if r[1] is not None else buf[f.start:f.end])
     return None
+
+
+def _canon(buf: bytes):
+    """Order-insensitive rendering of a well-formed field sequence (groups recursively)."""
+    out = []
+    for f in wire.parse_fields(buf):
+        if f.wt == wire.SGROUP:
+            inner = buf[f.tag_end:f.end - len(wire.tag(f.num, wire.EGROUP))]
+            out.append((f.num, f.wt, _canon(inner)))
+        else:
+            out.append((f.num, f.wt, bytes(buf[f.tag_end:f.end])))
+    return tuple(sorted(out, key=repr))
+
+
+def kept_as_unknown(out: bytes, occ: bytes) -> bool:
+    """True if the re-encoding `out` still carries the occurrence `occ` at top level - byte for byte, or (for
+    a group, whose content an unknown-field store may keep parsed) field for field in any inner order."""
+    if occ in out:
+        return True
+    try:
+        want = _canon(occ)
+        have = _canon(out)
+    except (wire.WireError, IndexError):
+        return False
+    return all(w in have for w in want)
+
+
+def struct_eq(x, y, depth: int = 0) -> bool:
+    """The harness's own equality of decoded values: declared fields, recursively; NaN equals NaN; unknown
+    fields are NOT compared (a decoder may keep them on either side of ==)."""
+    if isinstance(x, betterproto.Message) and isinstance(y, betterproto.Message):
+        if type(x) is not type(y) or depth > 40:
+            return type(x) is type(y)
+        for fi in class_info(type(x)).fields:
+            try:
+                a = getattr(x, fi.name)
+            except AttributeError:
+                a = AttributeError
+            try:
+                b = getattr(y, fi.name)
+            except AttributeError:
+                b = AttributeError
+            if a is AttributeError or b is AttributeError:
+                if a is not b:
+                    return False
+                continue
+            if not struct_eq(a, b, depth + 1):
+                return False
+        return True
+    if isinstance(x, float) and isinstance(y, float):
+        return x == y or (x != x and y != y)
+    if isinstance(x, list) and isinstance(y, list):
+        return len(x) == len(y) and all(struct_eq(a, b, depth + 1) for a, b in zip(x, y))
+    if isinstance(x, dict) and isinstance(y, dict):
+        return x.keys() == y.keys() and all(struct_eq(v, y[k], depth + 1) for k, v in x.items())
+    return x == y
 
 
 def top_level_malformed(buf: bytes) -> Optional[str]:
@@ -290,100 +355,89 @@ class _Run:
         except Exception as e:  # noqa: BLE001
             return "raise", e
 
+    ENTRY_NAMES = ("parse", "FromString", "load", "load(SIZE_DELIMITED)")
+
     def decode(self, cls, data: bytes, kind: str):
-        """parse + one rotating other entry point; they must agree.  Returns ('ok', msg) / ('raise', exc)."""
+        """parse, and for every third input one rotating other entry point.  Returns [(entry name, 'ok' |
+        'raise', message | exception)].  Each entry point is judged on its own by M1-M4: the statement says
+        what any decode of a byte string does, not that two decoders agree (agreement is recorded)."""
         self.evals += 1
         self.current = data
         signal.setitimer(signal.ITIMER_VIRTUAL, CPU_LIMIT_S)
         st, got = self._decode_one(cls, data, 0)
+        results = [("parse", st, got)]
         self.rot = (self.rot + 1) % 9
-        if self.rot % 3:
-            entry, st2, got2 = 0, st, got          # every third input goes through a second entry point
-        else:
+        if self.rot % 3 == 0:
             entry = 1 + self.rot // 3
             st2, got2 = self._decode_one(cls, data, entry)
-        if st != st2:
-            name = ("parse", "FromString", "load", "load(SIZE_DELIMITED)")[entry]
-            raise Violation("C17.M2", "entry-points-disagree",
-                            f"[{kind}] input {data.hex()[:160]} ({cls.__name__}): parse -> "
-                            f"{st if st == 'ok' else type(got).__name__}, {name} -> {st2 if st2 == 'ok' else type(got2).__name__}: {got2 if st2 != 'ok' else ''}")
-        if st == "ok":
-            try:
-                same = bytes(got) == bytes(got2)
-            except Exception:  # noqa: BLE001
-                same = True     # judged by M2 below
-            if not same:
-                raise Violation("C17.M2", "entry-points-disagree", f"[{kind}] input {data.hex()[:160]}: different results")
+            results.append((self.ENTRY_NAMES[entry], st2, got2))
+            if st != st2:
+                self.stats["recorded:entry-points-disagree-on-accept/reject"] += 1
+        for _, s_, g_ in results:
+            if s_ != "ok" and isinstance(g_, MemoryError):
+                self.stats["recorded:decode-raised-MemoryError"] += 1
         # reference agreement: recorded, not enforced
         ra = ref_accepts(self.sim.ref.pb_class(cls), data) if cls in self.sim.ref._msgs else None
         if ra is not None:
             self.stats[f"ref:{'bp-accepts' if st == 'ok' else 'bp-rejects'}/{'ref-accepts' if ra else 'ref-rejects'}"] += 1
         self.h.update(kind.encode() + data[:64] + (b"ok" if st == "ok" else type(got).__name__.encode()))
-        return st, got
+        return results
 
     def judge(self, cls, data: bytes, kind: str, expect: str, base=None, occ: bytes = b"", detail: str = ""):
-        """expect: 'any' | 'raise' | 'same' (known fields as in `base`) | 'same+verbatim'."""
-        st, got = self.decode(cls, data, kind)
+        """expect: 'any' | 'raise' | 'same' (known fields as in `base`) | 'same+verbatim' | 'same-or-raise'."""
+        results = self.decode(cls, data, kind)
         bad = top_level_malformed(data)
-        if st == "ok":
-            if expect == "raise" or bad:
-                raise Violation("C17.M3", f"accepted:{kind}",
-                                f"[{kind}] {detail} input {data.hex()[:200]} ({cls.__name__}) "
-                                f"{'is malformed at top level (' + bad + ')' if bad else 'must be rejected'} "
-                                f"but decoded to {short(got, 160)}")
-            why = check_types(got, cls)
-            if why:
-                raise Violation("C17.M2", f"wrong-type:{kind}",
-                                f"[{kind}] {detail} input {data.hex()[:200]} ({cls.__name__}) decoded to a message "
-                                f"with {why}")
-            try:
-                out = bytes(got)
-            except Exception as e:  # noqa: BLE001
-                raise Violation("C17.M2", f"cannot-reencode:{kind}",
-                                f"[{kind}] {detail} input {data.hex()[:200]} ({cls.__name__}) decoded, but bytes() "
-                                f"raises {type(e).__name__}: {e}")
-            dp = deep_problem(data, cls)
-            if dp is not None and dp[1] not in out:
-                raise Violation("C17.M3", f"accepted-nested:{kind}",
-                                f"[{kind}] {detail} input {data.hex()[:200]} ({cls.__name__}): the payload of the "
-                                f"well-delimited field {dp[1].hex()[:80]} is itself cut / malformed ({dp[0]}), yet it was "
-                                f"decoded into {short(got, 140)} instead of being rejected or kept verbatim")
-            if expect.startswith("same"):
+        dp = None
+        dp_done = False
+        for entry, st, got in results:
+            via = "" if entry == "parse" else f" via {entry}"
+            if st == "ok":
+                if expect == "raise" or bad:
+                    raise Violation("C17.M3", f"accepted:{kind}",
+                                    f"[{kind}]{via} {detail} input {data.hex()[:200]} ({cls.__name__}) "
+                                    f"{'is malformed at top level (' + bad + ')' if bad else 'must be rejected'} "
+                                    f"but decoded to {short(got, 160)}")
+                why = check_types(got, cls)
+                if why:
+                    raise Violation("C17.M2", f"wrong-type:{kind}",
+                                    f"[{kind}]{via} {detail} input {data.hex()[:200]} ({cls.__name__}) decoded to a message "
+                                    f"with {why}")
                 try:
-                    eq = (got == base) and all(
-                        self._field_eq(got, base, fi) for fi in class_info(cls).fields)
+                    out = bytes(got)
                 except Exception as e:  # noqa: BLE001
-                    raise Violation("C17.M4", f"compare-raised:{kind}", f"{type(e).__name__}: {e}")
-                if not eq:
-                    raise Violation("C17.M4", f"known-field-altered:{kind}",
-                                    f"[{kind}] {detail} inserted {occ.hex()} into a valid {cls.__name__} encoding: "
-                                    f"known fields changed: {short(got, 140)} vs {short(base, 140)}")
-                if expect == "same+verbatim" and occ not in out:
-                    raise Violation("C17.M4", f"not-kept-as-unknown:{kind}",
-                                    f"[{kind}] {detail} occurrence {occ.hex()} is not re-emitted verbatim by "
-                                    f"bytes(result) = {out.hex()[:160]}")
-        else:
-            if expect.startswith("same"):
-                raise Violation("C17.M4", f"rejected:{kind}",
-                                f"[{kind}] {detail} inserted {occ.hex()} into a valid {cls.__name__} encoding: decoding "
-                                f"raised {type(got).__name__}: {got} instead of keeping it as an unknown field")
-        return st
-
-    @staticmethod
-    def _field_eq(a, b, fi) -> bool:
-        try:
-            x = getattr(a, fi.name)
-        except AttributeError:
-            x = AttributeError
-        try:
-            y = getattr(b, fi.name)
-        except AttributeError:
-            y = AttributeError
-        if x is AttributeError or y is AttributeError:
-            return x is y
-        if isinstance(x, float) and isinstance(y, float) and x != x and y != y:
-            return True
-        return x == y
+                    raise Violation("C17.M2", f"cannot-reencode:{kind}",
+                                    f"[{kind}]{via} {detail} input {data.hex()[:200]} ({cls.__name__}) decoded, but bytes() "
+                                    f"raises {type(e).__name__}: {e}")
+                if not dp_done:
+                    dp, dp_done = deep_problem(data, cls), True
+                if dp is not None and dp[1] not in out:
+                    raise Violation("C17.M3", f"accepted-nested:{kind}",
+                                    f"[{kind}]{via} {detail} input {data.hex()[:200]} ({cls.__name__}): the payload of the "
+                                    f"well-delimited field {dp[1].hex()[:80]} is itself cut / malformed ({dp[0]}), yet it was "
+                                    f"decoded into {short(got, 140)} instead of being rejected or kept verbatim")
+                if expect.startswith("same"):
+                    try:
+                        eq = struct_eq(got, base)
+                    except Exception as e:  # noqa: BLE001
+                        raise Violation("C17.M4", f"compare-raised:{kind}", f"{type(e).__name__}: {e}")
+                    if not eq:
+                        raise Violation("C17.M4", f"known-field-altered:{kind}",
+                                        f"[{kind}]{via} {detail} inserted {occ.hex()} into a valid {cls.__name__} encoding: "
+                                        f"known fields changed: {short(got, 140)} vs {short(base, 140)}")
+                    if expect == "same-or-raise" and not kept_as_unknown(out, occ):
+                        self.stats["recorded:group-accepted-but-not-re-emitted"] += 1
+                    if expect == "same+verbatim" and not kept_as_unknown(out, occ):
+                        raise Violation("C17.M4", f"not-kept-as-unknown:{kind}",
+                                        f"[{kind}]{via} {detail} occurrence {occ.hex()} is not re-emitted by "
+                                        f"bytes(result) = {out.hex()[:160]}")
+            else:
+                if expect in ("same", "same+verbatim"):
+                    raise Violation("C17.M4", f"rejected:{kind}",
+                                    f"[{kind}]{via} {detail} inserted {occ.hex()} into a valid {cls.__name__} encoding: decoding "
+                                    f"raised {type(got).__name__}: {got} instead of keeping it as an unknown field")
+                if expect == "same-or-raise":
+                    self.stats["recorded:unknown-number-group-rejected"] += 1
+        return results[0][1]
 
     # -- crafting ------------------------------------------------------------------------------
     def wellformed_payload(self, wt: int) -> bytes:
@@ -569,7 +623,10 @@ class _Run:
             gnum = 777 if variant != 2 else tape.choice(known, "grp-known-num")
             occ = wire.f_group(gnum, inner)
             at = bounds[tape.draw(len(bounds), "ins-at")]
-            self.judge(cls, enc[:at] + occ + enc[at:], "group", "same+verbatim" if variant == 2 else "same", base, occ,
+            # the statement names groups apart from "a known field number with a wire type that does not fit"
+            # and promises one thing about them: they never alter a known field.  Skipping, keeping and
+            # (sentence 1) rejecting a group are all within it; applying its content is not.
+            self.judge(cls, enc[:at] + occ + enc[at:], "group", "same-or-raise", base, occ,
                        detail=f"group #{gnum} variant {variant};")
             stats["fault:group"] += 1
         # unterminated group: a cut field
